@@ -203,7 +203,7 @@ CHECKS["C11"] = ("other",
     "de-duplication logic", "DESIGN.md §6 C11, reports/C08-C10-C11.md")
 CHECKS["C10"] = ("other",
     "PROVED in Coq: vec_in_order (for every derivation of a vector rule, in both recursion directions, the generated Vec "
-    "actions yield the elements in input order), tied each run to the real values; ast_tokens_compositional + "
+    "actions yield the elements in input order), tied each run to the real values; ast_tokens_in_order_partial, ast_tokens_compositional, "
     "std_actions_keep_order_partial (Model/DefaultAst.v: every action-body shape the generator writes keeps its arguments' "
     "literals in order, hence the value of any derivation tree holds the content tokens in input order; the type deduction "
     "that picks the shapes is not modelled and this model is not run against the code). The other clauses (every content token exactly once across all type shapes, None iff absent, "
